@@ -1006,6 +1006,11 @@ def parse_tree_to_objgraph(
 
                 for m in models:
                     assert not m._tx_reference_resolver.parser._inst_stack
+                    # References are collected in the order of resolution
+                    # which, with postponed references, is not the textual one.
+                    m._tx_reference_resolver.pos_crossref_list.sort(
+                        key=lambda ref: ref.ref_pos_start
+                    )
 
                 # cleanup
                 for m in models:
@@ -1032,7 +1037,7 @@ def parse_tree_to_objgraph(
 
         if metamodel.textx_tools_support and type(model) not in PRIMITIVE_PYTHON_TYPES:
             # Cross-references for go-to definition language server support
-            # Already sorted based on ref_pos_start attr
+            # Sorted based on ref_pos_start attr after reference resolution
             # (required for binary search)
             model._pos_crossref_list = pos_crossref_list
 
